@@ -143,7 +143,18 @@ func visitInstr(fr *frame, instr ssa.Instruction) continuation {
 		fr.env[instr] = unop(fr, instr, fr.get(instr.X))
 
 	case *ssa.BinOp:
-		fr.env[instr] = binop(instr.Op, instr.X.Type(), fr.get(instr.X), fr.get(instr.Y))
+		x, y := fr.get(instr.X), fr.get(instr.Y)
+		if xs, ok := x.(string); ok && (instr.Op == token.EQL || instr.Op == token.NEQ) {
+			if ys, ok := y.(string); ok {
+				r := strEqValue(fr, xs, ys)
+				if instr.Op == token.NEQ {
+					r = symNot(r)
+				}
+				fr.env[instr] = r
+				break
+			}
+		}
+		fr.env[instr] = binop(instr.Op, instr.X.Type(), x, y)
 
 	case *ssa.Call:
 		fn, args := prepareCall(fr, &instr.Call)
@@ -624,7 +635,7 @@ func (i *interpreter) ensureInit(pkg *ssa.Package) {
 }
 
 func initAllowed(path string) bool {
-	for _, p := range []string{"0chain.net/", "github.com/0chain/common/", "github.com/0chain/errors", "github.com/pkg/errors"} {
+	for _, p := range []string{"0chain.net/", "github.com/0chain/common/", "github.com/0chain/errors", "github.com/pkg/errors", "github.com/koding/cache"} {
 		if strings.HasPrefix(path, p) {
 			return true
 		}
